@@ -123,14 +123,14 @@ func tail(s string, n int) string {
 
 // Opts configures a server process.
 type Opts struct {
-	Bin      string   // binary path from Build
-	Dir      string   // data directory ("" = new dir)
-	Args     []string // extra args
-	Env      []string // extra env
-	Host     string   // "" = 127.0.0.1
-	NoWait   bool     // do not wait for readiness
-	Password string   // if set, readiness probe authenticates
-	Wrapper  []string // e.g. strace ...
+	Bin          string   // binary path from Build
+	Dir          string   // data directory ("" = new dir)
+	Args         []string // extra args
+	Env          []string // extra env
+	Host         string   // "" = 127.0.0.1
+	NoWait       bool     // do not wait for readiness
+	Password     string   // if set, readiness probe authenticates
+	Wrapper      []string // e.g. strace ...
 	ReadyTimeout time.Duration
 }
 
@@ -161,7 +161,37 @@ func NewDir() string {
 	return d
 }
 
+// freePort picks a port OUTSIDE the kernel's ephemeral range (so that other
+// processes' `:0` listeners and outgoing connections never land on it) at a
+// pseudo-random position, and never hands out the same port twice in one
+// process: a stale client of some other check that reconnects to a port its dead
+// server used to own must not reach a server of this check.
+var (
+	portMu   sync.Mutex
+	portUsed = map[int]bool{}
+	portNext = 20000 + int(time.Now().UnixNano()/1000+int64(os.Getpid())*7919)%11000
+)
+
 func freePort() (int, error) {
+	portMu.Lock()
+	defer portMu.Unlock()
+	for i := 0; i < 4000; i++ {
+		p := portNext
+		portNext++
+		if portNext >= 31000 {
+			portNext = 20000
+		}
+		if portUsed[p] {
+			continue
+		}
+		l, err := net.Listen("tcp", "127.0.0.1:"+strconv.Itoa(p))
+		if err != nil {
+			continue
+		}
+		l.Close()
+		portUsed[p] = true
+		return p, nil
+	}
 	l, err := net.Listen("tcp", "127.0.0.1:0")
 	if err != nil {
 		return 0, err
